@@ -513,7 +513,7 @@ func runStreams() {
 		}
 		tinyLen, smallLen, wideLen := 4, 3, 2
 		if full {
-			tinyLen, smallLen, wideLen = 6, 4, 3
+			tinyLen, smallLen, wideLen = 5, 4, 3
 		}
 		if on("tiny") {
 			enumStrings(alphaTiny, tinyLen, func(b []byte) { emit(b); rep.Count("stream.exhaustive_tiny", 1) })
@@ -534,7 +534,7 @@ func runStreams() {
 		g := &senGen{r: lib.NewRng(*seed)}
 		nDocs := 7000
 		if full {
-			nDocs = 200000
+			nDocs = 60000
 		}
 		if !on("rand") {
 			nDocs = 0
